@@ -38,7 +38,8 @@ func csvField(r *hx.Rng, ty string, sep rune) string {
 	case "boolean":
 		return []string{"1", "0", "true", "false", "t", "f", "TRUE", "False", "T", "F", "2", "tRuE"}[r.Intn(12)]
 	}
-	s := []string{"", "x", "hello world", "a" + string(sep) + "b", "say \"hi\"", "ünï ✓", "line\nbreak", "  pad  ", strings.Repeat("z", 390), strings.Repeat("y", 420), "\\n", "NULL"}[r.Intn(12)]
+	s := []string{"", "x", "hello world", "a" + string(sep) + "b", "say \"hi\"", "ünï ✓", "line\nbreak", "  pad  ", strings.Repeat("z", 390), strings.Repeat("y", 420), "\\n", "NULL",
+		" lead", "\tlead", "trail ", " ", "\u00a0nbsp", " \\N"}[r.Intn(18)]
 	if strings.ContainsAny(s, "\"\n"+string(sep)) || r.Chance(1, 5) {
 		return quote(s)
 	}
@@ -126,6 +127,11 @@ func runCsv(cfg *config) {
 				case 2:
 					sb.WriteString("\n") // empty line (skipped by the reader)
 					continue
+				case 3:
+					if rr.Chance(1, 3) {
+						sb.WriteString("x" + string(sep) + " \"quoted after a blank\"\n") // a bare quote inside an unquoted field
+						continue
+					}
 				}
 				for k := 0; k < w; k++ {
 					if k > 0 {
